@@ -30,7 +30,7 @@ ALL_FAMILIES = [
     "catstr", "catcat", "catord", "box", "box_contrast", "box_levels", "box_ordered",
     "inter", "star", "slash", "power", "group", "group_slope", "group_cat",
     "group_inter_factor", "group_multi_factor", "group_transform", "group_box",
-    "resp_level", "resp_prop", "resp_cat", "resp_none", "nointercept",
+    "resp_level", "resp_prop", "resp_cat", "resp_none", "nointercept", "extra",
 ]
 
 
@@ -69,6 +69,7 @@ class Gen:
         self.ops = []
         self._fid = 0
         self._oid = 0
+        self._has_ec = False
 
     # ------------------------------------------------------------------ swarm
     def swarm(self):
@@ -91,6 +92,8 @@ class Gen:
                 enabled.add("group_cat")
             if r.random() < 0.4:
                 enabled.add("group_inter_factor")
+        for f in self.force.get("families_add", []):
+            enabled.add(f)
         if not enabled & {"catstr", "catcat", "catord", "box"}:
             enabled.add("catstr")
         cfg = {
@@ -114,6 +117,7 @@ class Gen:
                 "drop": r.choice([0, 1]),
                 "rebuild": r.choice([0, 1, 2]),
                 "inspect": r.choice([0, 1, 2]) + (2 if self.prop == "C17" else 0),
+                "describe": r.choice([0, 1]) if self.prop == "C07" else 0,
             },
             "kinds": {
                 "rows": r.choice([3, 5, 8]) + (6 if self.prop == "C06" else 0),
@@ -204,9 +208,13 @@ class Gen:
                           ("uf", 2), ("nested", 3), ("npcall", 2)]:
             if name in fam:
                 opts.append((name, wgt))
+        if "extra" in fam and self._has_ec:
+            opts.append(("extra", 2))
         kind = r.choices([o[0] for o in opts], [o[1] for o in opts])[0]
         if kind == "plain":
             return Item(v, [v])
+        if kind == "extra":
+            return Item(r.choice([f"I({v} * ec)", f"center({v} + ec)"]), [v], fams=["extra"])
         if kind == "center":
             return Item(f"center({v})", [v], fams=["center"])
         if kind == "scale":
@@ -303,7 +311,7 @@ class Gen:
         r = self.rng
         opts = [("num", 5), ("cat", 5)]
         if "inter" in fam:
-            opts += [("cat:num", 2), ("cat:cat", 2), ("num:num", 1), ("three", 1)]
+            opts += [("cat:num", 2), ("cat:cat", 2), ("num:num", 1), ("three", 1), ("catcatcat", 1)]
         if "star" in fam:
             opts += [("cat*num", 2), ("cat*cat", 1)]
         if "slash" in fam:
@@ -345,6 +353,22 @@ class Gen:
             if a.text == b.text:
                 return a
             return self._join(":", a, b, ["inter"])
+        if kind == "catcatcat":
+            # three or four categoricals, optionally times a numeric: lower-order margins are absent,
+            # so formulae has to insert extra terms for full-rankness
+            pool = [Item(v, [v], cats=[v], fams=["catstr"]) for v in STR_COLS]
+            if "catcat" in fam:
+                pool.append(Item("c", ["c"], cats=["c"], fams=["catcat"]))
+            if "box" in fam:
+                pool.append(Item("C(k)", ["k"], cats=["k"], fams=["box"]))
+            r.shuffle(pool)
+            parts = pool[: r.choice([3, 3, 4]) if len(pool) >= 4 else 3]
+            it = parts[0]
+            for p in parts[1:]:
+                it = self._join(":", it, p, ["inter", "inter3"])
+            if r.random() < 0.3:
+                it = self._join(":", it, self.num_atom(fam), ["inter"])
+            return it
         if kind == "three":
             a = self.cat_atom(fam)
             b = self.cat_atom(fam, avoid=a.used)
@@ -680,13 +704,15 @@ class Gen:
             return op
 
         def do_build():
+            client = r.randrange(cfg["n_clients"])
+            self._has_ec = bool(clients[client]["extra"] and "ec" in clients[client]["extra"])
             fm = self.formula(cfg)
             d = {
                 "id": f"d{len(designs)}",
                 "fm": fm,
                 "train": r.choice(trains),
                 "na_action": "drop" if r.random() < 0.8 else "pass",
-                "client": r.randrange(cfg["n_clients"]),
+                "client": client,
             }
             designs.append(d)
             add({"op": "build", "id": d["id"], "client": d["client"], "formula": fm["text"],
@@ -787,6 +813,7 @@ class Gen:
                 "drop": w["drop"] if results else 0,
                 "rebuild": w["rebuild"],
                 "inspect": w["inspect"],
+                "describe": w.get("describe", 0),
             }
             k = r.choices(list(kinds_w), [kinds_w[x] for x in kinds_w])[0]
             if k == "build":
@@ -814,6 +841,9 @@ class Gen:
             elif k == "drop":
                 res = results.pop(r.randrange(len(results)))
                 add({"op": "drop", "target": res["id"]})
+            elif k == "describe":
+                add({"op": "describe", "formula": r.choice(designs)["fm"]["text"] if r.random() < 0.5
+                     else self.formula(cfg)["text"]})
             elif k == "rebuild":
                 d = r.choice(designs)
                 nd = dict(d)
